@@ -30,6 +30,12 @@ impl Spec {
         Ok(r.map(|(p, _)| (p, cx.toks)))
     }
 
+    /// does `rule` match at byte offset `pos` under the given atomicity (empty stack, no lookahead)?
+    pub fn match_at(&self, rule: &str, input: &str, pos: usize, at: Atom, limit: usize) -> Result<bool, Out> {
+        let mut cx = Ctx { input, steps: 0, limit, toks: vec![] };
+        Ok(self.call(rule, pos, Vec::new(), at, false, &mut cx)?.is_some())
+    }
+
     fn tick(&self, cx: &mut Ctx) -> Result<(), Out> { cx.steps += 1; if cx.steps > cx.limit { Err(Out::Diverge) } else { Ok(()) } }
 
     fn call(&self, name: &str, pos: usize, st: Stack, at: Atom, look: bool, cx: &mut Ctx) -> Result<Option<(usize, Stack)>, Out> {
